@@ -91,6 +91,23 @@ def dedupKeepOk (st : ESt) (vid s keep : Nat) : Bool :=
   | some k => h.all fun n => decide (k.free ≤ n.free)
   | none => false
 
+/-- `doDeduplicateEcShards` with applyBalancing = true, for one shard id: every holder except `keep`
+    (`ecNodes[0]` after `sortEcNodesByFreeslotsAscending`, see `dedupKeepOk`) runs `deleteEcVolumeShards`.
+    The dry run only prints, so this branch is outside the differential check; it mirrors the three lines
+    of the loop body and is what the dedup theorems of Props/C16.lean are about. -/
+def ESt.dedupShard (st : ESt) (vid s keep : Nat) : ESt :=
+  if (holders st vid s).length ≤ 1 then st else
+  { st with nodes := st.nodes.map fun n =>
+      if n.id != keep && (n.hasEntry vid && hasBit (n.bits vid) s) then n.del vid s else n }
+
+/-- the loop over the shard ids: `(shard, keep)` pairs in the order processed; `none` if a `keep` is not
+    a holder with the fewest free slots at its turn -/
+def dedupRun (vid : Nat) : ESt → List (Nat × Nat) → Option ESt
+  | st, [] => some st
+  | st, (s, keep) :: rest =>
+    if (holders st vid s).length ≤ 1 then dedupRun vid st rest
+    else if dedupKeepOk st vid s keep then dedupRun vid (st.dedupShard vid s keep) rest else none
+
 /-! ### across racks -/
 
 /-- insertion into a list sorted by count descending, after the equal ones (stable sort) -/
